@@ -142,15 +142,17 @@ Inductive cres := COk (p : prefix) (n : node) (unm : bool) (rest : list token) |
 
 Definition set_boost (n : node) (b : Z) : node := Node (n_field n) (n_leaf n) (Some b).
 
-(* searchPart: searchPrefix searchBase searchSuffix *)
-Definition p_part (ts : list token) : cres :=
-  let '(p, ts1) :=
-    match ts with
-    | Tok TPLUS _ :: r => (PMust, r)
-    | Tok TMINUS _ :: r => (PMustNot, r)
-    | _ => (PShould, ts)
-    end in
-  match p_base ts1 with
+(* searchPrefix *)
+Definition p_prefix (ts : list token) : prefix * list token :=
+  match ts with
+  | Tok TPLUS _ :: r => (PMust, r)
+  | Tok TMINUS _ :: r => (PMustNot, r)
+  | _ => (PShould, ts)
+  end.
+
+(* searchSuffix and the action of searchPart (SetBoost) *)
+Definition p_suffix (p : prefix) (b : bres) : cres :=
+  match b with
   | BErr => CErr
   | BOk n unm ts2 =>
       match ts2 with
@@ -163,6 +165,10 @@ Definition p_part (ts : list token) : cres :=
       | _ => COk p n unm ts2
       end
   end.
+
+(* searchPart: searchPrefix searchBase searchSuffix *)
+Definition p_part (ts : list token) : cres :=
+  let '(p, ts1) := p_prefix ts in p_suffix p (p_base ts1).
 
 (* AddMust / AddShould / AddMustNot append *)
 Definition add_clause (q : bq) (p : prefix) (n : node) : bq :=
